@@ -37,8 +37,8 @@ def run_one(m):
     d = make_scratch()
     try:
         if "patch" in m:
-            r = subprocess.run(["git", "apply", "--unsafe-paths", "--include=lib/*",
-                                "--include=src/*", "--directory=" + d, m["patch"]],
+            r = subprocess.run(["git", "apply", "--unsafe-paths",
+                                "--directory=" + d, m["patch"]],
                                cwd="/", capture_output=True, text=True)
             if r.returncode:
                 r = subprocess.run(["patch", "-p1", "-d", d, "-i", m["patch"]],
